@@ -15,7 +15,8 @@
 (*              if the update comes from the best connection send the head to  *)
 (*              every registered waiter's 1-slot channel, read-unlock;         *)
 (*              ticker -> updateBest under the write lock (PoolSelect).        *)
-(*   Waiter(w)  subscribe under the write lock (immediate reply if the best    *)
+(*   Waiter(w)  subscribe under the write lock (read the best connection's     *)
+(*              head under that connection's lock; immediate reply if the best *)
 (*              connection already has the seqno, else register), select loop  *)
 (*              over {own channel, timer, context}, deferred unsubscribe under *)
 (*              the write lock.                                                *)
@@ -26,9 +27,10 @@
 (* heads, new callers, cancellations, the ticker - is free).  "Still inside    *)
 (* the call after the deadline" is therefore a state predicate.                *)
 (*                                                                             *)
-(* FixNotify / FixTimer = FALSE is the protocol as implemented; TRUE selects   *)
-(* the repaired variants (notify replaces a stale unread head instead of       *)
-(* blocking; the timer is created once per call).                              *)
+(* FixNotify / FixTimer / FixSetHead = FALSE is the protocol as implemented;   *)
+(* TRUE selects the repaired variants (notify replaces a stale unread head     *)
+(* instead of blocking; the timer is created once per call; SetMasterHead      *)
+(* publishes after releasing the connection lock).                             *)
 EXTENDS Naturals, Sequences, FiniteSets, TLC, PoolSelect
 
 CONSTANTS NC,          \* number of connections (configuration order 1..NC)
@@ -40,10 +42,10 @@ CONSTANTS NC,          \* number of connections (configuration order 1..NC)
           Timeouts,    \* timeouts callers use (Inf = no timer: BestMasterchainClient)
           UpdCap,      \* capacity of masterHeadUpdatedCh (10 in the code)
           MaxTime, Strategy, Rtt0, MaxFlips,
-          FixNotify, FixTimer
+          FixNotify, FixTimer, FixSetHead
 
 Conns == 1..NC
-Inf   == 99
+Inf   == 1000000000   \* "no timer"
 WCap  == 1             \* capacity of a waiter's channel
 
 VARIABLES
@@ -54,13 +56,14 @@ VARIABLES
   rw,                  \* pool RWMutex [w |-> writer, pend |-> pending writer, r |-> set of readers]
   best,                \* bestConn
   reg, ch,             \* reg[w]: w is in waitList; ch[w]: its channel, Seq(<<seqno, from, bestThen>>)
-  wpc, want, tmo, timer, orig, cancelled, result, okby, rett,
+  wpc, want, tmo, hread, timer, orig, cancelled, result, okby, rett,
+                       \* hread[w]: the head subscribe read from the best connection
   rpc, rupd, rtodo,    \* run loop: pc, update in hand, waiters still to notify
   now, flips
 
 connVars == <<head, alive, rtt, clk, updCh, cpc, cnew>>
 poolVars == <<rw, best, reg, ch>>
-waitVars == <<wpc, want, tmo, timer, orig, cancelled, result, okby, rett>>
+waitVars == <<wpc, want, tmo, hread, timer, orig, cancelled, result, okby, rett>>
 runVars  == <<rpc, rupd, rtodo>>
 vars     == <<connVars, poolVars, waitVars, runVars, now, flips>>
 
@@ -82,6 +85,7 @@ Init ==
   /\ rw = [w |-> None, pend |-> None, r |-> {}] /\ best = 1
   /\ reg = [w \in Waiters |-> FALSE] /\ ch = [w \in Waiters |-> <<>>]
   /\ wpc = [w \in Waiters |-> "idle"] /\ want = [w \in Waiters |-> 0] /\ tmo = [w \in Waiters |-> 0]
+  /\ hread = [w \in Waiters |-> 0]
   /\ timer = [w \in Waiters |-> Inf] /\ orig = [w \in Waiters |-> Inf]
   /\ cancelled = [w \in Waiters |-> FALSE] /\ result = [w \in Waiters |-> "none"]
   /\ okby = [w \in Waiters |-> <<0, 0, 0>>] /\ rett = [w \in Waiters |-> 0]
@@ -90,14 +94,15 @@ Init ==
 \* ------------------------------------------- connection.SetMasterHead(k, s)
 G_SmhLock(k) == cpc[k] = "idle" /\ ~clk[k]
 SmhLock(k, s) ==                                        \* environment: connection k learns head s
-  /\ G_SmhLock(k) /\ s \in 1..MaxSeq /\ \E d \in Steps : s = head[k] + d
+  /\ G_SmhLock(k)
   /\ cnew' = [cnew EXCEPT ![k] = s] /\ clk' = [clk EXCEPT ![k] = TRUE] /\ cpc' = [cpc EXCEPT ![k] = "locked"]
   /\ UNCHANGED <<head, alive, rtt, updCh, poolVars, waitVars, runVars, now, flips>>
 G_SmhSet(k) == cpc[k] = "locked"
 SmhSet(k) ==                                            \* monotone update under the lock
   /\ G_SmhSet(k)
   /\ IF cnew[k] > head[k]
-       THEN head' = [head EXCEPT ![k] = cnew[k]] /\ cpc' = [cpc EXCEPT ![k] = "send"] /\ clk' = clk
+       THEN head' = [head EXCEPT ![k] = cnew[k]] /\ cpc' = [cpc EXCEPT ![k] = "send"]
+            /\ clk' = IF FixSetHead THEN [clk EXCEPT ![k] = FALSE] ELSE clk      \* repaired: publish after unlocking
        ELSE head' = head /\ cpc' = [cpc EXCEPT ![k] = "idle"] /\ clk' = [clk EXCEPT ![k] = FALSE]
   /\ UNCHANGED <<alive, rtt, updCh, cnew, poolVars, waitVars, runVars, now, flips>>
 G_SmhSend(k) == cpc[k] = "send" /\ Len(updCh) < UpdCap
@@ -144,26 +149,31 @@ RunUpdBody == /\ G_RunUpdBody
 
 \* ---------------------------- WaitMasterchainSeqno / BestMasterchainClient
 WStart(w, s, t) ==                                      \* environment: a caller arrives
-  /\ wpc[w] = "idle" /\ s \in Wants /\ t \in Timeouts
+  /\ wpc[w] = "idle"
   /\ want' = [want EXCEPT ![w] = s] /\ tmo' = [tmo EXCEPT ![w] = t] /\ wpc' = [wpc EXCEPT ![w] = "sub"]
-  /\ UNCHANGED <<connVars, poolVars, timer, orig, cancelled, result, okby, rett, runVars, now, flips>>
+  /\ UNCHANGED <<connVars, poolVars, hread, timer, orig, cancelled, result, okby, rett, runVars, now, flips>>
 G_WSubAnn(w) == wpc[w] = "sub" /\ Free
 WSubAnn(w) == /\ G_WSubAnn(w) /\ Announce(w) /\ wpc' = [wpc EXCEPT ![w] = "sub_acq"]
-              /\ UNCHANGED <<connVars, best, reg, ch, want, tmo, timer, orig, cancelled, result, okby, rett, runVars, now, flips>>
+              /\ UNCHANGED <<connVars, best, reg, ch, want, tmo, hread, timer, orig, cancelled, result, okby, rett, runVars, now, flips>>
 G_WSubAcq(w) == wpc[w] = "sub_acq" /\ CanAcquire(w)
 WSubAcq(w) == /\ G_WSubAcq(w) /\ Acquire(w) /\ wpc' = [wpc EXCEPT ![w] = "sub_in"]
-              /\ UNCHANGED <<connVars, best, reg, ch, want, tmo, timer, orig, cancelled, result, okby, rett, runVars, now, flips>>
-\* subscribe body: bestConn.MasterHead() needs the connection's lock
-G_WSubBody(w) == wpc[w] = "sub_in" /\ ~clk[best]
+              /\ UNCHANGED <<connVars, best, reg, ch, want, tmo, hread, timer, orig, cancelled, result, okby, rett, runVars, now, flips>>
+\* subscribe, first half: head := bestConn.MasterHead()  (under the connection's read lock; the pool's
+\* write lock does not stop the connection from advancing afterwards)
+G_WSubRead(w) == wpc[w] = "sub_in" /\ ~clk[best]
+WSubRead(w) == /\ G_WSubRead(w) /\ hread' = [hread EXCEPT ![w] = head[best]] /\ wpc' = [wpc EXCEPT ![w] = "sub_rd"]
+               /\ UNCHANGED <<connVars, poolVars, want, tmo, timer, orig, cancelled, result, okby, rett, runVars, now, flips>>
+\* second half: immediate reply or registration, unlock; the caller enters its select (timer armed)
+G_WSubBody(w) == wpc[w] = "sub_rd"
 WSubBody(w) ==
   /\ G_WSubBody(w)
-  /\ IF head[best] >= want[w]
-       THEN ch' = [ch EXCEPT ![w] = <<<<head[best], best, best>>>>] /\ reg' = reg
+  /\ IF hread[w] >= want[w]
+       THEN ch' = [ch EXCEPT ![w] = <<<<hread[w], best, best>>>>] /\ reg' = reg
        ELSE ch' = ch /\ reg' = [reg EXCEPT ![w] = TRUE]
   /\ WUnlock /\ best' = best /\ wpc' = [wpc EXCEPT ![w] = "waiting"]
   /\ LET d == IF tmo[w] = Inf THEN Inf ELSE now + tmo[w] IN
        timer' = [timer EXCEPT ![w] = d] /\ orig' = [orig EXCEPT ![w] = d]
-  /\ UNCHANGED <<connVars, want, tmo, cancelled, result, okby, rett, runVars, now, flips>>
+  /\ UNCHANGED <<connVars, want, tmo, hread, cancelled, result, okby, rett, runVars, now, flips>>
 G_WRecv(w) == wpc[w] = "waiting" /\ ch[w] # <<>>
 WRecv(w) ==
   /\ G_WRecv(w)
@@ -173,36 +183,36 @@ WRecv(w) ==
             /\ rett' = [rett EXCEPT ![w] = now] /\ wpc' = [wpc EXCEPT ![w] = "unsub"] /\ timer' = timer
        ELSE /\ UNCHANGED <<result, okby, rett, wpc>>
             /\ timer' = IF FixTimer \/ tmo[w] = Inf THEN timer ELSE [timer EXCEPT ![w] = now + tmo[w]]  \* time.After re-armed
-  /\ UNCHANGED <<connVars, rw, best, reg, want, tmo, orig, cancelled, runVars, now, flips>>
+  /\ UNCHANGED <<connVars, rw, best, reg, want, tmo, hread, orig, cancelled, runVars, now, flips>>
 G_WTimeout(w) == wpc[w] = "waiting" /\ now >= timer[w]
 WTimeout(w) == /\ G_WTimeout(w)
                /\ result' = [result EXCEPT ![w] = "timeout"] /\ rett' = [rett EXCEPT ![w] = now]
                /\ wpc' = [wpc EXCEPT ![w] = "unsub"]
-               /\ UNCHANGED <<connVars, poolVars, want, tmo, timer, orig, cancelled, okby, runVars, now, flips>>
+               /\ UNCHANGED <<connVars, poolVars, want, tmo, hread, timer, orig, cancelled, okby, runVars, now, flips>>
 \* a context cancelled earlier is observed only in the select, so cancelling is modelled there
 Cancel(w) == /\ wpc[w] = "waiting" /\ ~cancelled[w] /\ cancelled' = [cancelled EXCEPT ![w] = TRUE]   \* environment
-             /\ UNCHANGED <<connVars, poolVars, wpc, want, tmo, timer, orig, result, okby, rett, runVars, now, flips>>
+             /\ UNCHANGED <<connVars, poolVars, wpc, want, tmo, hread, timer, orig, result, okby, rett, runVars, now, flips>>
 G_WCancelRet(w) == wpc[w] = "waiting" /\ cancelled[w]
 WCancelRet(w) == /\ G_WCancelRet(w)
                  /\ result' = [result EXCEPT ![w] = "cancel"] /\ rett' = [rett EXCEPT ![w] = now]
                  /\ wpc' = [wpc EXCEPT ![w] = "unsub"]
-                 /\ UNCHANGED <<connVars, poolVars, want, tmo, timer, orig, cancelled, okby, runVars, now, flips>>
+                 /\ UNCHANGED <<connVars, poolVars, want, tmo, hread, timer, orig, cancelled, okby, runVars, now, flips>>
 G_WUnsubAnn(w) == wpc[w] = "unsub" /\ Free
 WUnsubAnn(w) == /\ G_WUnsubAnn(w) /\ Announce(w) /\ wpc' = [wpc EXCEPT ![w] = "unsub_acq"]
-                /\ UNCHANGED <<connVars, best, reg, ch, want, tmo, timer, orig, cancelled, result, okby, rett, runVars, now, flips>>
+                /\ UNCHANGED <<connVars, best, reg, ch, want, tmo, hread, timer, orig, cancelled, result, okby, rett, runVars, now, flips>>
 G_WUnsubAcq(w) == wpc[w] = "unsub_acq" /\ CanAcquire(w)
 WUnsubAcq(w) == /\ G_WUnsubAcq(w) /\ Acquire(w) /\ wpc' = [wpc EXCEPT ![w] = "unsub_in"]
-                /\ UNCHANGED <<connVars, best, reg, ch, want, tmo, timer, orig, cancelled, result, okby, rett, runVars, now, flips>>
+                /\ UNCHANGED <<connVars, best, reg, ch, want, tmo, hread, timer, orig, cancelled, result, okby, rett, runVars, now, flips>>
 G_WUnsubBody(w) == wpc[w] = "unsub_in"
 WUnsubBody(w) == /\ G_WUnsubBody(w) /\ reg' = [reg EXCEPT ![w] = FALSE] /\ WUnlock
                  /\ wpc' = [wpc EXCEPT ![w] = "done"]
-                 /\ UNCHANGED <<connVars, best, ch, want, tmo, timer, orig, cancelled, result, okby, rett, runVars, now, flips>>
+                 /\ UNCHANGED <<connVars, best, ch, want, tmo, hread, timer, orig, cancelled, result, okby, rett, runVars, now, flips>>
 
 \* ------------------------------------------------------------------- time
 InternalEnabled ==
   \/ \E k \in Conns : G_SmhSet(k) \/ G_SmhSend(k)
   \/ G_RunRecv \/ G_RunRLock \/ G_RunRUnlock \/ G_RunUpdAcq \/ G_RunUpdBody
-  \/ \E w \in Waiters : \/ G_RunSend(w) \/ G_WSubAnn(w) \/ G_WSubAcq(w) \/ G_WSubBody(w) \/ G_WRecv(w)
+  \/ \E w \in Waiters : \/ G_RunSend(w) \/ G_WSubAnn(w) \/ G_WSubAcq(w) \/ G_WSubRead(w) \/ G_WSubBody(w) \/ G_WRecv(w)
                         \/ G_WTimeout(w) \/ G_WCancelRet(w) \/ G_WUnsubAnn(w) \/ G_WUnsubAcq(w) \/ G_WUnsubBody(w)
 Tick == /\ now < MaxTime /\ ~InternalEnabled /\ now' = now + 1
         /\ UNCHANGED <<connVars, poolVars, waitVars, runVars, flips>>
@@ -210,10 +220,10 @@ Tick == /\ now < MaxTime /\ ~InternalEnabled /\ now' = now + 1
 Internal ==
   \/ \E k \in Conns : SmhSet(k) \/ SmhSend(k)
   \/ RunRecv \/ RunRLock \/ RunRUnlock \/ RunUpdAcq \/ RunUpdBody
-  \/ \E w \in Waiters : \/ RunSend(w) \/ WSubAnn(w) \/ WSubAcq(w) \/ WSubBody(w) \/ WRecv(w) \/ WTimeout(w)
+  \/ \E w \in Waiters : \/ RunSend(w) \/ WSubAnn(w) \/ WSubAcq(w) \/ WSubRead(w) \/ WSubBody(w) \/ WRecv(w) \/ WTimeout(w)
                         \/ WCancelRet(w) \/ WUnsubAnn(w) \/ WUnsubAcq(w) \/ WUnsubBody(w)
 Env ==
-  \/ \E k \in Conns : (\E s \in 1..MaxSeq : SmhLock(k, s)) \/ Flip(k)
+  \/ \E k \in Conns : (\E d \in Steps : head[k] + d \in 1..MaxSeq /\ SmhLock(k, head[k] + d)) \/ Flip(k)
   \/ RunTick
   \/ \E w \in Waiters : (\E s \in Wants, t \in Timeouts : WStart(w, s, t)) \/ Cancel(w)
   \/ Tick
@@ -242,7 +252,7 @@ OkJustified == \A w \in Waiters : result[w] = "ok" =>
 ErrJustified == \A w \in Waiters : /\ result[w] = "timeout" => (orig[w] # Inf /\ rett[w] >= orig[w])
                                    /\ result[w] = "cancel" => cancelled[w]
 \* nobody is still inside the call when the clock has passed its deadline
-Late(w)    == wpc[w] \notin {"idle", "sub", "sub_acq", "sub_in", "done"} /\ orig[w] # Inf /\ now > orig[w]
+Late(w)    == wpc[w] \notin {"idle", "sub", "sub_acq", "sub_in", "sub_rd", "done"} /\ orig[w] # Inf /\ now > orig[w]
 ByDeadline == \A w \in Waiters : ~Late(w)
 \* a caller still in its select after the deadline (only a re-armed timer can do that)
 LateInSelect(w) == Late(w) /\ wpc[w] = "waiting"
